@@ -22,7 +22,8 @@ EXTENDS Naturals, FiniteSets, TLC
 
 CONSTANTS Cap,    \* max_messages of every mailbox
           Lag,    \* chunks P2 holds back
-          N       \* chunks of the run
+          N,      \* chunks of the run
+          PauseAt \* the consumer stops pulling after this many chunks (N + 1: it never stops) - property C13
 
 Boxes == {"a", "b", "c", "t"}
 Subs == [a |-> {"P1", "P2"}, b |-> {"J"}, c |-> {"J"}, t |-> {"C"}]
@@ -39,7 +40,7 @@ Pairs == {<<"a", "P1">>, <<"a", "P2">>, <<"b", "J">>, <<"c", "J">>, <<"t", "C">>
 
 Init == /\ sent = [m \in Boxes |-> 0] /\ closed = [m \in Boxes |-> FALSE]
         /\ took = [x \in Pairs |-> 0] /\ acked = [x \in Pairs |-> 0]
-        /\ pc = [x \in Stages |-> IF x = "S" THEN "send" ELSE "take"] /\ out = [x \in Stages |-> 0]
+        /\ pc = [x \in Stages |-> IF x = "S" THEN "make" ELSE "take"] /\ out = [x \in Stages |-> 0]
 
 Min(S) == CHOOSE x \in S : \A y \in S : x <= y
 Held(m) == sent[m] - Min({took[<<m, s>>] : s \in Subs[m]})           \* len(mailbox)
@@ -52,9 +53,12 @@ Take(m, s) == /\ took' = [took EXCEPT ![<<m, s>>] = IF acked[<<m, s>>] < @ THEN 
 Finish(m, s) == UNCHANGED <<took, acked>>
 Send(m, x) == CanWrite(m) /\ sent' = [sent EXCEPT ![m] = @ + 1] /\ out' = [out EXCEPT ![x] = @ + 1]
 
-\* the source
-SSend == /\ pc["S"] = "send" /\ out["S"] < N /\ Send("a", "S") /\ UNCHANGED <<closed, took, acked, pc>>
-SClose == /\ pc["S"] = "send" /\ out["S"] = N /\ closed' = [closed EXCEPT !["a"] = TRUE] /\ pc' = [pc EXCEPT !["S"] = "done"]
+\* the source: computes the next chunk, then sends it (holding it while the mailbox is full); out["S"] counts the chunks computed
+SMake == /\ pc["S"] = "make" /\ out["S"] < N /\ out' = [out EXCEPT !["S"] = @ + 1] /\ pc' = [pc EXCEPT !["S"] = "send"]
+         /\ UNCHANGED <<sent, closed, took, acked>>
+SSend == /\ pc["S"] = "send" /\ CanWrite("a") /\ sent' = [sent EXCEPT !["a"] = @ + 1] /\ pc' = [pc EXCEPT !["S"] = "make"]
+         /\ UNCHANGED <<closed, took, acked, out>>
+SClose == /\ pc["S"] = "make" /\ out["S"] = N /\ closed' = [closed EXCEPT !["a"] = TRUE] /\ pc' = [pc EXCEPT !["S"] = "done"]
           /\ UNCHANGED <<sent, took, acked, out>>
 \* P1: one in, one out
 P1Take == /\ pc["P1"] = "take" /\ CanTake("a", "P1") /\ Take("a", "P1") /\ pc' = [pc EXCEPT !["P1"] = "send"] /\ UNCHANGED <<sent, closed, out>>
@@ -77,10 +81,10 @@ JEndB == /\ pc["J"] = "take" /\ Over("b", "J") /\ Finish("b", "J") /\ pc' = [pc 
 JEndC == /\ pc["J"] = "end2" /\ Over("c", "J") /\ Finish("c", "J") /\ closed' = [closed EXCEPT !["t"] = TRUE]
          /\ pc' = [pc EXCEPT !["J"] = "done"] /\ UNCHANGED <<sent, out>>
 \* the consumer never stops pulling
-CTake == /\ pc["C"] = "take" /\ CanTake("t", "C") /\ Take("t", "C") /\ UNCHANGED <<sent, closed, pc, out>>
+CTake == /\ pc["C"] = "take" /\ acked[<<"t", "C">>] < PauseAt /\ CanTake("t", "C") /\ Take("t", "C") /\ UNCHANGED <<sent, closed, pc, out>>
 CEnd == /\ pc["C"] = "take" /\ Over("t", "C") /\ Finish("t", "C") /\ pc' = [pc EXCEPT !["C"] = "done"] /\ UNCHANGED <<sent, closed, out>>
 
-Next == SSend \/ SClose \/ P1Take \/ P1Send \/ P1End \/ P2Take \/ P2Send \/ P2EndIn \/ P2Flush \/ P2Close
+Next == SMake \/ SSend \/ SClose \/ P1Take \/ P1Send \/ P1End \/ P2Take \/ P2Send \/ P2EndIn \/ P2Flush \/ P2Close
         \/ JTakeB \/ JTakeC \/ JSend \/ JEndB \/ JEndC \/ CTake \/ CEnd
 Spec == Init /\ [][Next]_vars /\ WF_vars(Next)
 
@@ -92,6 +96,12 @@ NeverStuck == ~Stuck
 \* eager mode never buffers more than the capacity; everything sent arrives in order
 CapInv == \A m \in Boxes : Held(m) <= Cap
 Delivered == AllDone => acked[<<"t", "C">>] = N
+\* C13: once the consumer has stopped, the source advances by a number of chunks that depends on Cap and Lag only - the largest
+\* out["S"] over all schedules is collected in a TLC register (INVARIANT Collect, one worker) and printed at the end; the harness
+\* checks that it is the same for N and 2 N and that no real run exceeds it
+Collect == IF out["S"] > TLCGet(1) THEN TLCSet(1, out["S"]) ELSE TRUE
+Report == PrintT(<<"MAXSRC", TLCGet(1)>>)
+ASSUME TLCSet(1, 0)
 \* the property's proviso is sufficient
-ProvisoSufficient == Lag < Cap => ~Stuck
+ProvisoSufficient == (Lag < Cap /\ PauseAt > N) => ~Stuck
 =============================================================================
